@@ -1,0 +1,38 @@
+// Package jsesc escapes text for use inside a JavaScript string literal.
+package jsesc
+
+import (
+	"bytes"
+	"fmt"
+	"io"
+	"text/template"
+	"unicode"
+	"unicode/utf16"
+	"unicode/utf8"
+)
+
+// Escape is template.JSEscape, except that a non-printable code point outside
+// the basic multilingual plane is written as a surrogate pair: template.JSEscape
+// writes it as "\u" followed by five or six hex digits, which JavaScript reads
+// as a four-digit escape followed by literal digits.
+func Escape(w io.Writer, b []byte) {
+	last := 0
+	for i := 0; i < len(b); {
+		r, size := utf8.DecodeRune(b[i:])
+		if r > 0xFFFF && !unicode.IsPrint(r) {
+			template.JSEscape(w, b[last:i])
+			r1, r2 := utf16.EncodeRune(r)
+			fmt.Fprintf(w, "\\u%04X\\u%04X", r1, r2)
+			last = i + size
+		}
+		i += size
+	}
+	template.JSEscape(w, b[last:])
+}
+
+// EscapeString returns the escaped equivalent of s (see Escape).
+func EscapeString(s string) string {
+	var buf bytes.Buffer
+	Escape(&buf, []byte(s))
+	return buf.String()
+}
